@@ -200,3 +200,55 @@ def dim_checks(P, fi, context=None):
                     calls.append((x[1].split('.')[-1], names, dim[1] if dim is not None and is_c(dim) else None))
         out.append(calls)
     return out
+
+
+def nan_vector(t, like):
+    """Is `t` a float vector with one NaN per element of `like`?  True / False / None (not a recognised allocation).
+    Recognised: (alloc * nan), (alloc + nan), nan * alloc, np.full(shape, nan), np.full_like(like, nan, dtype=float),
+    with alloc in zeros/ones/empty[_like] of the length / shape of `like`, under astype(float) wrappers."""
+    from ..paths import subterms as _sub
+    NANS = (('ref', 'numpy.nan'), ('ref', 'numpy.NaN'), ('ref', 'math.nan'), ('ref', 'numpy.NAN'))
+
+    def strip(x):
+        while x[0] == 'meth' and x[1] in ('astype', 'copy'):
+            x = x[2]
+        return x
+
+    def shaped(a):
+        a = strip(a)
+        if a[0] != 'call':
+            return None
+        if a[1] in ('numpy.zeros_like', 'numpy.ones_like', 'numpy.empty_like', 'numpy.full_like'):
+            return bool(a[2]) and strip(a[2][0]) == like
+        if a[1] in ('numpy.zeros', 'numpy.ones', 'numpy.empty', 'numpy.full'):
+            shp = a[2][0] if a[2] else dict(a[3]).get('shape')
+            if shp is None:
+                return None
+            if shp[0] in ('tuple', 'list') and len(shp[1]) == 1:
+                shp = shp[1][0]
+            oks = [('call', 'builtins.len', (like,), ()), ('attr', like, 'shape'), ('sub', ('attr', like, 'shape'), ('c', 0)),
+                   ('attr', like, 'size')]
+            return shp in oks
+        return None
+    t = strip(t)
+    if t[0] == 'bin' and t[1] in ('*', '+', '-'):
+        for a, b in ((t[2], t[3]), (t[3], t[2])):
+            if strip(b) in NANS:
+                s = shaped(a)
+                if s is not None:
+                    return s
+        if not any(x in NANS for x in _sub(t)):
+            return False if (shaped(t[2]) is not None or shaped(t[3]) is not None) else None
+        return None
+    if t[0] == 'call' and t[1] in ('numpy.full', 'numpy.full_like'):
+        fv = t[2][1] if len(t[2]) > 1 else dict(t[3]).get('fill_value')
+        s = shaped(t)
+        if fv is None or s is None:
+            return None
+        if fv in NANS:
+            return s
+        return False
+    if t[0] == 'call' and t[1] in ('numpy.zeros', 'numpy.ones', 'numpy.zeros_like', 'numpy.ones_like', 'numpy.empty',
+                                   'numpy.empty_like'):
+        return False
+    return None
